@@ -330,6 +330,10 @@ func (e *fnEnc) evalIdent(name string, env *specEnv) SVal {
 	if g, ok := e.ghostVars[name]; ok {
 		return SVal{t: g}
 	}
+	if gt, ok := e.eng.ghostVars[name]; ok {
+		srt, _ := e.specSort(env.pkg, gt)
+		return SVal{t: e.heapGet(env.st, "Ghost.var."+name, srt)}
+	}
 	if env.block != nil {
 		if v, ok := e.resolveLocal(name, env.block, env.idx, env.st); ok {
 			return v
@@ -691,6 +695,29 @@ func (e *fnEnc) evalCall(x *ECall, env *specEnv) SVal {
 		// pkg.Type(x) conversions or method-like calls are not supported
 		if sel, ok := x.Fun.(*ESel); ok {
 			if b := e.evalSpec(sel.X, env); b.pkgRef != "" {
+				if fnName := b.pkgRef + "." + sel.Name; e.eng.contracts[fnName] != nil && e.eng.contracts[fnName].Options["pure"] != "" {
+					if f := e.eng.funcs[fnName]; f != nil {
+						var ats []Term
+						for i, a := range x.Args {
+							av := e.evalSpec(a, env)
+							ps := e.sortOf(f.Params[i].Type())
+							t, _ := e.coerce(av, SVal{t: Term{"?", ps}})
+							ats = append(ats, t)
+						}
+						res := e.pureApp(fnName, f.Signature, ats)
+						if len(res) == 1 {
+							return SVal{t: res[0], typ: f.Signature.Results().At(0).Type()}
+						}
+						rn := resultNames(f.Signature)
+						tup := map[string]SVal{}
+						for i, r := range res {
+							v := SVal{t: r, typ: f.Signature.Results().At(i).Type()}
+							tup[rn[i]] = v
+							tup[fmt.Sprintf("result%d", i)] = v
+						}
+						return SVal{tuple: tup}
+					}
+				}
 				if sf, ok := e.eng.specFuncs[sel.Name]; ok && e.eng.specFnPkg[sel.Name] == b.pkgRef {
 					var as []SVal
 					for _, a := range x.Args {
@@ -700,6 +727,44 @@ func (e *fnEnc) evalCall(x *ECall, env *specEnv) SVal {
 				}
 				if t, ok := e.eng.lookupType(b.pkgRef, sel.Name); ok && len(x.Args) == 1 {
 					return e.convertSVal(e.evalSpec(x.Args[0], env), t)
+				}
+			}
+		}
+		// method of a pure contracted function applied in a spec: recv.m(args)
+		if sel, ok := x.Fun.(*ESel); ok {
+			recv := e.evalSpec(sel.X, env)
+			if recv.typ != nil {
+				var fnName string
+				rt := types.Unalias(recv.typ)
+				if p, ok := rt.(*types.Pointer); ok {
+					if n := namedName(p.Elem()); n != "" {
+						fnName = "(*" + n + ")." + sel.Name
+					}
+				} else if n := namedName(rt); n != "" {
+					fnName = "(" + n + ")." + sel.Name
+				}
+				if c := e.eng.contracts[fnName]; c != nil && c.Options["pure"] != "" {
+					if f := e.eng.funcs[fnName]; f != nil {
+						ats := []Term{recv.t}
+						for i, a := range x.Args {
+							av := e.evalSpec(a, env)
+							ps := e.sortOf(f.Params[i+1].Type())
+							t, _ := e.coerce(av, SVal{t: Term{"?", ps}})
+							ats = append(ats, t)
+						}
+						res := e.pureApp(fnName, f.Signature, ats)
+						rn := resultNames(f.Signature)
+						tup := map[string]SVal{}
+						for i, r := range res {
+							v := SVal{t: r, typ: f.Signature.Results().At(i).Type()}
+							tup[rn[i]] = v
+							tup[fmt.Sprintf("result%d", i)] = v
+						}
+						if len(res) == 1 {
+							return tup["result0"]
+						}
+						return SVal{tuple: tup}
+					}
 				}
 			}
 		}
